@@ -75,11 +75,12 @@ impl Default for Cfg {
             probe_qq_outer: 255,
             probe_qq_vector_twice: 12,
             probe_qq_dotted: 40,
-            probe_qq_keyword: 3,
+            // repaired in /repo: generated freely
+            probe_qq_keyword: 60,
             probe_temp_capture: 3,
             // repaired in /repo
             probe_begin_define: 6,
-            probe_qq_vector_derived: 3,
+            probe_qq_vector_derived: 255,
         }
     }
 }
@@ -891,7 +892,7 @@ impl<'a, 'b> Gen<'a, 'b> {
                 }
                 _ => {
                     if self.c.chance(self.cfg.probe_qq_keyword) {
-                        self.features.insert("kf-qq-keyword-list");
+                        self.features.insert("qq-keyword-list");
                         lst(vec![s(*self.c.pick(&["and", "or", "let", "begin", "when", "cond"][..])), int(1), int(2)])
                     } else {
                         lst(vec![s("f"), int(1), Sx::Str("s".into())])
@@ -1996,18 +1997,12 @@ fn scan_template(t: &Sx, out: &mut BTreeSet<&'static str>) {
                 scan(&v[1], false, out);
                 return;
             }
-            if let Some(h) = v[0].as_sym() {
-                if KEYWORDS.contains(&h) {
-                    out.insert("qq-keyword-list");
-                }
-            }
             let n = v.len();
             for e in v {
                 scan_template(e, out);
             }
         }
         Sx::Vector(v) => {
-            scan_vector_template(t, out);
             for e in v {
                 scan_template(e, out);
             }
